@@ -461,7 +461,6 @@ func dialDirectiveFreshOpts(c *an.Check) {
 	c.Require(bad == "" && n >= 1, "LOOPALLOC", "every DialTptAddr directive is built with dialer options of its own", nil, "", n, "options allocated at the construction site", bad)
 }
 
-
 // equivProjectionReviewed: getters that are legitimately compared through one component only, with the reason.
 var equivProjectionReviewed = map[string]string{
 	"(*tptaddr.dialTptAddr).IsEquivalent: DialTptAddrDialerOpts.GetAddress()": "the address is the only part of the dialer options that selects what is dialed; the backoff settings tune retry timing of the same request",
